@@ -10,7 +10,8 @@ from .c09 import classify_dir
 PROP = "C11"
 LEVEL = "fault_enumeration"
 MONITORS = ["bystanders_identical", "payload_under_exactly_one_id", "invalid_dirs_reported_by_check",
-            "no_forged_statepoint", "error_propagates_or_complete", "crash_points", "error_points"]
+            "no_forged_statepoint", "error_propagates_or_complete", "crash_points", "error_points",
+            "refused_change_stays_refused"]
 RULE = (
     "Lifecycle operations {init of a fresh job, init(force=True) of an existing job, state point key set, whole "
     "assignment, update_statepoint, move, clone, remove, clear, reset} x scenarios {fresh destination, colliding "
@@ -23,7 +24,8 @@ RULE = (
     "one id directory (clone: source identical); every 32-hex directory validates or is named by check(); no "
     "directory validates with a state point outside {old, new}; an injected error either propagated (disk = pre, "
     "post or check()-detectable) or the call returned with the full post-state. Double faults (second error in the "
-    "recovery path) are sampled. Non-trivial and distinct = distinct (operation, scenario, step, fault) runs in "
+    "recovery path) are enumerated for the short operations and sampled for the others; for state point changes and move a follow-up "
+    "edit through the same handle after a propagated error must not resurrect the refused change. Non-trivial and distinct = distinct (operation, scenario, step, fault) runs in "
     "which the fault actually fired."
 )
 ASSUMPTIONS = [
@@ -61,6 +63,12 @@ def gen_cases(ctx):
                 if ctx.take(i):
                     yield {"op": op, "dest": dest, "part": part, "nparts": nparts}
                 i += 1
+    # a caller that handles the exception and keeps using the handle: one more state point edit after the fault
+    for op in ("spset", "assign", "update_sp", "move"):
+        for part in range(2):
+            if ctx.take(i):
+                yield {"op": op, "dest": "fresh", "followup": True, "part": part, "nparts": 2}
+            i += 1
     # systematic double faults for the short operations: every first error, then every later step of the
     # run that this first error produces
     for op in ("init_force", "init_fresh", "reset"):
@@ -274,7 +282,92 @@ def _flat(dirs):
     return out
 
 
+def run_followup(ctx, case):
+    """After an injected error the caller catches the exception and edits the state point once more through the
+    same handle. The refused change must not resurface: the data must end up under old+edit (if the disk was left
+    in the pre-state) or new+edit (post-state)."""
+    setup, base_op, new_sp = make(case)
+    base = ctx.scratch("fu")
+    idJ, idNew = model.model_id(J), model.model_id(new_sp)
+
+    def op(root, st):
+        job = st["job"]
+        try:
+            base_op(root, st)
+            r = "returned"
+        except Exception as e:  # noqa
+            r = "raised:" + type(e).__name__
+        where = "p2" if case["op"] == "move" else "p1"
+        old_there = os.path.isdir(os.path.join(root, "p1", "workspace", idJ))
+        new_there = os.path.isdir(os.path.join(root, where, "workspace", idNew))
+        if case["op"] == "move":
+            state = "post" if (new_there and not old_there) else ("pre" if old_there and not new_there else "other")
+        else:
+            state = "pre" if (old_there and not new_there) else ("post" if new_there and not old_there else "other")
+        try:
+            job.sp.zz = 7
+            f = "ok"
+        except Exception as e:  # noqa
+            f = "raised:" + type(e).__name__
+        with open(root + ".followup.json", "w") as fh:  # outside the monitored (fault-injected) root
+            json.dump({"r": r, "state": state, "f": f, "id": job.id}, fh)
+
+    r1 = os.path.join(base, "rec")
+    os.makedirs(r1)
+    rec = faultrun.run(setup, op, r1, include_reads=True)
+    if rec["outcome"] != "returned":
+        raise RuntimeError(str(rec)[:500])
+    r0 = os.path.join(base, "pre")
+    os.makedirs(r0)
+    faultrun.run(setup, noop, r0)
+    want_payload = payload_of(job_dirs(os.path.join(r0, "p1"))[idJ])
+    plans = []
+    for st in rec["steps"]:
+        for ename, eno in faultrun.ERRNOS.items():
+            plans.append(("err", st["k"], eno, ename))
+    plans = [p for j, p in enumerate(plans) if j % case["nparts"] == case["part"]]
+    for j, plan in enumerate(plans):
+        root = os.path.join(base, f"r{j}")
+        os.makedirs(root)
+        res = faultrun.run(setup, op, root, plan=plan[:3], include_reads=True)
+        if not res.get("fired") or not os.path.exists(root + ".followup.json"):
+            shutil.rmtree(root, ignore_errors=True)
+            continue
+        fu = json.load(open(root + ".followup.json"))
+        ctx.monitor("refused_change_stays_refused")
+        ctx.distinct("nontrivial", ["followup", case["op"], list(plan)])
+        if fu["state"] in ("pre", "post") and fu["r"].startswith("raised"):
+            base_sp = J if fu["state"] == "pre" else new_sp
+            want_sp = dict(base_sp, zz=7) if fu["f"] == "ok" else dict(base_sp)
+            proj = "p2" if (case["op"] == "move" and fu["state"] == "post") else "p1"
+            holders = []
+            for pp in ("p1", "p2"):
+                for name, snap in job_dirs(os.path.join(root, pp)).items():
+                    pl = payload_of(snap)
+                    if {k: v for k, v in pl.items() if k != model.DOC_FILE} == {k: v for k, v in want_payload.items() if k != model.DOC_FILE}:
+                        try:
+                            sp = json.loads(snap[model.SP_FILE][1].decode()) if model.SP_FILE in snap else None
+                        except Exception:
+                            sp = "unparsable"
+                        holders.append((pp, name, sp))
+            good = [h for h in holders if h[2] is not None and h[2] != "unparsable" and model.typed_eq(h[2], want_sp)
+                    and h[1] == model.model_id(want_sp)]
+            valid_foreign = [h for h in holders if isinstance(h[2], dict) and model.model_id(h[2]) == h[1]
+                             and not model.typed_eq(h[2], want_sp) and not model.typed_eq(h[2], base_sp)]
+            if valid_foreign and not good:
+                ctx.violation(
+                    "refused-change-applied-by-later-edit",
+                    "a state point change that failed with an I/O error took effect when the caller edited the state point again",
+                    {"op": case["op"], "plan": list(plan), "step": rec["steps"][plan[1]]["ev"], "followup": fu,
+                     "expected_statepoint": want_sp, "found": [list(h) for h in holders]})
+                return
+        shutil.rmtree(root, ignore_errors=True)
+    ctx.sample({"followup_after_error": case["op"], "fault_runs": len(plans)})
+
+
 def run_case(ctx, case):
+    if case.get("followup"):
+        return run_followup(ctx, case)
     setup, op, new_sp = make(case)
     base = ctx.scratch("f")
 
